@@ -58,6 +58,22 @@ UNIT['parts'] += [
         ensures=[('own_offset', 'r == (if me.1.4 is Local { None::<i32> } else { dt_offset(*me) })')]),
 ]
 
+# ---- the methods of FeelDateTime the evaluator calls: each hands its own operands, in order, to the function of the same name
+BETWEEN = ('(if dt_compare(*self, *left) is Some && dt_compare(*self, *right) is Some { '
+           'Some((if left_closed { dt_compare(*self, *left)->Some_0 != Ordering::Less } else { dt_compare(*self, *left)->Some_0 == Ordering::Greater }) '
+           '&& (if right_closed { dt_compare(*self, *right)->Some_0 != Ordering::Greater } else { dt_compare(*self, *right)->Some_0 == Ordering::Less })) '
+           '} else { None::<bool> })')
+def meth(name, requires, ensures):
+    return {'kind': 'fn', 'src': M, 'path': 'impl FeelDateTime::fn ' + name, 'key': 'timeline::FeelDateTime::' + name, 'props': P, 'auto_props': A, 'loops': 0, 'ret': 'r',
+            'requires': requires, 'ensures': ensures}
+O2 = 'dt_compare(*self, *other)->Some_0'
+NF2 = [('nanos_fit', 'self.1.3 <= u32::MAX && other.1.3 <= u32::MAX')]
+for (name, expr) in [('equal', O2 + ' == Ordering::Equal'), ('before', O2 + ' == Ordering::Less'), ('before_or_equal', O2 + ' != Ordering::Greater'),
+                     ('after', O2 + ' == Ordering::Greater'), ('after_or_equal', O2 + ' != Ordering::Less')]:
+    UNIT['parts'].append(meth(name, NF2, [('by_instant', 'r == (if dt_compare(*self, *other) is Some { Some(%s) } else { None::<bool> })' % expr)]))
+UNIT['parts'].append(meth('between', [('nanos_fit', 'self.1.3 <= u32::MAX && left.1.3 <= u32::MAX && right.1.3 <= u32::MAX')],
+                          [('closed_ends_include_open_ends_exclude', 'r == ' + BETWEEN)]))
+
 NOT_DECIDED = {'C15': ['what chrono computes for instant_of / zone_off / local_off / weekday (uninterpreted): only that each value is converted with ITS OWN date, time and offset and that results are combined as specified']}
 ASSUMPTIONS = ['A-chrono: date_time_offset / get_zone_offset / get_local_offset / DateTime::cmp / sub / weekday are stubs over uninterpreted instant_of, zone_off, local_off, weekday_of',
                'A-derive: derived Clone of FeelDate/FeelTime/FeelZone returns an equal value',
